@@ -57,6 +57,7 @@ class Arm:
         self.node = node
         self.ret = ret
         self.ctor_class: Optional[str] = None
+        self.cond: Dict[str, tuple] = {}  # field -> (guard, value): replaced only when the guard holds
 
 
 def _strip_cast(e):
@@ -74,6 +75,56 @@ def find_normalize(an: Analysis) -> FunctionInfo:
     return an.prog.function(cands[0])
 
 
+def _replace_of(e, p):
+    e = _strip_cast(e)
+    if isinstance(e, ast.Call) and (e.func.id if isinstance(e.func, ast.Name) else getattr(e.func, "attr", "")) == "replace" \
+            and e.args and isinstance(e.args[0], ast.Name) and e.args[0].id == p and all(k.arg for k in e.keywords):
+        return {k.arg: k.value for k in e.keywords}
+    return None
+
+
+def _rebinding_arm(names, body, node, p):
+    """Arm written as successive re-bindings of the parameter: `x = replace(x, ...)`, `if G: x = replace(x, ...)`, ..., `return x`."""
+    if len(body) < 2 or not isinstance(body[-1], ast.Return) or body[-1].value is None:
+        return None
+    r = _strip_cast(body[-1].value)
+    if not (isinstance(r, ast.Name) and r.id == p):
+        return None
+    kws: Dict[str, ast.AST] = {}
+    cond: Dict[str, tuple] = {}
+    seen = False
+    for st in body[:-1]:
+        if isinstance(st, ast.Expr) and isinstance(st.value, ast.Constant):
+            continue
+        if isinstance(st, ast.Assign) and len(st.targets) == 1 and isinstance(st.targets[0], ast.Name) and st.targets[0].id == p:
+            k = _replace_of(st.value, p)
+            if k is None:
+                return None
+            kws.update(k)
+            for name in k:
+                cond.pop(name, None)
+            seen = True
+            continue
+        if isinstance(st, ast.If) and not st.orelse and len(st.body) == 1 and isinstance(st.body[0], ast.Assign) and len(st.body[0].targets) == 1 \
+                and isinstance(st.body[0].targets[0], ast.Name) and st.body[0].targets[0].id == p:
+            k = _replace_of(st.body[0].value, p)
+            if k is None:
+                return None
+            for name, v in k.items():
+                if name not in kws:
+                    cond[name] = (st.test, v)
+                else:
+                    return None  # a conditional change after an unconditional one: not modelled
+            seen = True
+            continue
+        return None
+    if not seen:
+        return None
+    arm = Arm(names, "replace", kws, node, body[-1])
+    arm.cond = cond
+    return arm
+
+
 def parse_normalize(an: Analysis):
     fn = find_normalize(an)
     p = fn.params[0]
@@ -82,6 +133,10 @@ def parse_normalize(an: Analysis):
         raise AnalysisError(f"{fn.qual}: no isinstance arms recognised")
     arms: List[Arm] = []
     for names, body, node in arms_raw:
+        rb = _rebinding_arm(names, body, node, p)
+        if rb is not None:
+            arms.append(rb)
+            continue
         rets = returns_of(body)
         pre = [st for st in body[:-1]]
         if len(rets) != 1 or not isinstance(body[-1], ast.Return) or not all(isinstance(st, (ast.Assign, ast.AnnAssign, ast.Expr, ast.ImportFrom, ast.Import)) for st in pre):
